@@ -409,11 +409,33 @@ def check_state_unify(ctx, lib, rule):
         tables.check_match_table(ctx, rule, fn["npath"], site_of(fn), t, AnyOf(U, pat("unify(@2, @0.v, @0.u)")), {"Ok": lambda body, b: (unify(("ctor", P("Stream::Unit"), (("proj", V("m"), P("Ok"), 0),)), tables.result(body), b), "Ok(state) -> unit stream of that state"), "Err": "Stream::Empty"})
 
 
+def check_primitives(ctx, lib, rule):
+    """SMap::extend(k, v) records exactly k -> v (the bind tables above pass (variable, term) in
+    that order and rely on it); with_smap replaces only the substitution."""
+    ev = sym.Evaluator(lib, inline=lambda p, f: False)
+    fn = streams.getfn(ctx, lib, rule, "crate::state::substitution::SMap::extend")
+    if fn:
+        t = ev.fn_term(fn)
+        ins = list(dict.fromkeys(c for c in sym.calls(t, "insert")))
+        ok = len(ins) == 1 and ins[0][2][0] == ("field", ("param", 0, "self"), "0") and ins[0][2][1][:2] == ("param", 1) and ins[0][2][2][:2] == ("param", 2) and not [s for s in sym.subterms(t) if s[0] in ("if", "match", "ret")]
+        ctx.expect(ok, rule, "SMap::extend|records-k-to-v", site_of(fn), "SMap::extend(k, v) must insert k -> v unconditionally; found %s" % show(t, maxdepth=5)[:160])
+    fn = streams.getfn(ctx, lib, rule, "crate::state::State::with_smap")
+    if fn:
+        t = ev.fn_term(fn)
+        nodes = [s for s in sym.subterms(t) if s[0] == "struct" and s[1].endswith("state::State")]
+        ok = len(nodes) == 1 and len(nodes[0]) == 4 and nodes[0][3][:2] == ("param", 0) and [n for n, v in nodes[0][2]] == ["smap"] and any(x[:2] == ("param", 1) for x in sym.subterms(dict(nodes[0][2])["smap"]))
+        ctx.expect(ok, rule, "State::with_smap|replaces-only-smap", site_of(fn), "with_smap must keep every other part of the state (`..self`) and install the given map")
+    import termkinds
+
+    termkinds.check_term_kinds(ctx, lib, rule.replace("K3.primitives", "K5.term-kinds"))
+
+
 def run(ctx, fb, cfg):
     lib = fb.lib
     R = "C01."
     check_unify_rec(ctx, lib, R + "K3K5.unify-rec")
     check_compound(ctx, lib, R + "K2K5.compound")
+    check_primitives(ctx, lib, R + "K3.primitives")
     check_occurs(ctx, lib, R + "K5.occurs")
     check_walk(ctx, lib, R + "K6.walk")
     check_state_unify(ctx, lib, R + "K3.state-unify")
